@@ -6,7 +6,8 @@ Leg D: spec/Form/Multipart.tla - the incremental multipart parser + read loop of
        against the declarative FormRef!Split.  Seeded faults of the model must be caught (self-test).
 Leg B: harness/form/form_drv.cpp drives cppcms::impl::multipart_parser directly and
        cppcms::http::request through a memory connection; every (input, outcome) line must satisfy
-       spec/Form/FormTrace.tla (Exact, AllOrNothing, FilterOnce, Spill).
+       spec/Form/FormTrace.tla (Exact, AllOrNothing, FilterOnce incl. what a reading / seeking / aborting filter
+       observes, Spill).  spec/Form/FilterObs.tla is the small design model of "filter reads are observations only".
 """
 import os, json
 import pvalidate as pv
@@ -32,11 +33,12 @@ def describe(evline):
     post = [(_b(p["n"]), _b(p["d"]) if "d" in p else p["len"]) for p in e.get("post", [])]
     files = [(_b(p["n"]), _b(p["f"]), _b(p["m"]), _b(p["d"]) if "d" in p else p["len"]) for p in e.get("files", [])]
     return ("POST ct=%s boundary=%r body=%s declared=%s limits(cl=%s,mp=%s,mem=%s) filter=%s buf=%s reads=%s -> status=%s app_ran=%s post=%s files=%s "
-            "raw=%s mpf=%s tmp(during=%s,after=%s)") % (
+            "raw=%s mpf=%s tmp(during=%s,after=%s) filter-policy=%s abort=%s fired=%s") % (
         e.get("ct"), _b(e.get("bnd", [])), body, e.get("decl"), e.get("cl"), e.get("mp"), e.get("mem"), e.get("flt"), e.get("buf"),
         e.get("cut"), e.get("st"), e.get("ran"), post, files,
         {k: v for k, v in e.get("raw", {}).items() if k in ("len", "calls", "eoc", "err")},
-        {k: (v if k != "cbs" else len(v)) for k, v in e.get("mpf", {}).items()}, e.get("tmpd"), e.get("tmpa"))
+        {k: (v if k not in ("cbs", "obs") else len(v)) for k, v in e.get("mpf", {}).items()}, e.get("tmpd"), e.get("tmpa"),
+        e.get("pol"), e.get("ab"), e.get("fired"))
 
 
 def signature(evline, side):
@@ -52,7 +54,12 @@ def signature(evline, side):
         return "urlencoded-malformed-delivered-in-part"
     if side == "hl" and e.get("ct") == "mp" and e.get("st") == 200:
         return "multipart-headerless-part-content-swallowed"
-    return "upload:%s:%s:st%s" % (e.get("ct"), e.get("flt"), e.get("st"))
+    flt = e.get("flt")
+    if any(e.get("pol", {}).get("rd", [])):
+        flt += "+read"
+    if e.get("fired"):
+        flt += "+abort"
+    return "upload:%s:%s:st%s" % (e.get("ct"), flt, e.get("st"))
 
 
 def run(ctx):
@@ -71,6 +78,11 @@ def run(ctx):
         "peer closing before the declared length: no status can be sent, 'aborted without delivery' (status 0) counts as refusal",
         "big bodies (> 380 bytes): ground truth is the part list the harness encoded; lengths + 4x16-bit digests are compared by TLC",
         "refusal codes 400 and 413 are not distinguished (the property lumps them)",
+        "content filters are driven as the API allows: a multipart_filter that reads 0 / k / all bytes of file::data() (streambuf sgetn, or "
+        "istream::read followed by clear()), from the current or a chosen position, in on_new_file / on_upload_progress / on_data_ready and - through "
+        "saved file references - in on_end_of_content, for fields and files, in memory and spilled; its reads must be the prefix received so far and "
+        "must not change post()/files(); a filter that leaves failbit set on file::data() is not driven; abort_upload(code) from any call-back of "
+        "either filter kind => that status, nothing delivered, no on_error",
     ]
     X = ["-noGenerateSpecTE"]
     # ------------------------------------------------------------------ Leg D (runs in a thread next to Leg B)
@@ -91,6 +103,10 @@ def leg_d(ctx, q, W, X):
                    note="boundary B only, tails up to 8")
     ctx.design("Form/Multipart.tla", "Multipart_limits.cfg", workers=W, timeout=600, deadlock_off=True, extra=X,
                note="part-size limit 0..2 around the part sizes")
+    ctx.design("Form/FilterObs.tla", "FilterObs.cfg", workers=2, timeout=300, deadlock_off=True, extra=X,
+               note="one part: parser writes, filter seeks/reads in any call-back, read_file delivers: ObsExact, Untouched")
+    ctx.design("Form/FilterObs.tla", "FilterObs_mut_noseek.cfg", workers=2, timeout=300, deadlock_off=True, extra=X, expect_violation="Untouched",
+               count=False, note="self-test: read_file without rewind must violate Untouched")
     for cfg, inv in (("Multipart_mut_restart0.cfg", "Progress"), ("Multipart_mut_dropprefix.cfg", "Progress"),
                      ("Multipart_mut_limitge.cfg", "AllOrNothing"), ("Multipart_mut_swallow.cfg", "Progress")):
         ctx.design("Form/Multipart.tla", cfg, workers=W, timeout=600, deadlock_off=True, extra=X, expect_violation=inv, count=False,
@@ -102,13 +118,13 @@ def leg_b(ctx, q):
     seen_sig = set()
     exe = ctx.harness("form_drv", ["form/form_drv.cpp"])
     if q:
-        jobs = [("seeds", ["seeds"])]
+        jobs = [("seeds", ["seeds"]), ("filt", ["filt"])]
         jobs += [("parser%d" % b, ["parser", 5, 2, b]) for b in range(3)]
         jobs += [("reqexh%d" % b, ["reqexh", 4, 1, b]) for b in range(3)]
         jobs += [("urlexh", ["urlexh", 5])]
         jobs += [("rand%d" % i, ["rand", 600, 16384, 50], {"VERIF_SEED": str(ctx.seed * 10 + i)}) for i in range(3)]
     else:
-        jobs = [("seeds", ["seeds"])]
+        jobs = [("seeds", ["seeds"]), ("filt", ["filt"])]
         jobs += [("parser%d" % b, ["parser", 6, 2, b]) for b in range(3)]
         jobs += [("reqexh%d" % b, ["reqexh", 5, 1, b]) for b in range(3)]
         jobs += [("urlexh", ["urlexh", 6])]
